@@ -1,8 +1,49 @@
+import NaijaVerif.Model.ReadLine
 import NaijaVerif.Driver.Util
-/-! Family `readline` — stub (replaced by the unit that owns this family). -/
+
+/-! Line protocol `readline` (C17):
+```
+chunks <hex>|<hex>|… calls=<k> [delay=<µs>]  -> lines=<hex>,<hex>,… utf8=<one 0/1 per line>
+old chunks <hex>|… calls=<k>                 -> the same through the model of the pinned code (replay only)
+```
+`-` is the empty byte string (an empty chunk, an empty line); with `calls=0` both fields are `none`.
+`delay` only concerns the feeder of the implementation side and is ignored here: the model's
+answer does not depend on time.  The answer is what `k` successive calls of the fixed `read_line`
+return when the chunks arrive one after the other, each after the previous one has been read
+completely; `utf8` says for each returned line whether it is valid UTF-8.
+-/
 namespace NaijaVerif.Driver.ReadLineD
+open NaijaVerif.ReadLine NaijaVerif.Driver
+
+def parseChunks (s : String) : Option (List (List Nat)) :=
+  (s.splitOn "|").mapM unhex
+
+def parseCalls (s : String) : Option Nat :=
+  if s.startsWith "calls=" then (s.drop 6).toString.toNat? else none
+
+def render (r : Option (List (List Nat))) : String :=
+  match r with
+  | none => "out-of-fuel"
+  | some [] => "lines=none utf8=none"
+  | some ls =>
+      "lines=" ++ ",".intercalate (ls.map hex) ++ " utf8=" ++
+        String.ofList (ls.map (fun l => if validUtf8 l then '1' else '0'))
+
+def answer (ws : List String) : String :=
+  match ws with
+  | "old" :: "chunks" :: c :: k :: _ =>
+      match parseChunks c, parseCalls k with
+      | some chunks, some n => render (readLinesOld n chunks)
+      | _, _ => "bad-request"
+  | "chunks" :: c :: k :: _ =>
+      match parseChunks c, parseCalls k with
+      | some chunks, some n => render (readLines n chunks)
+      | _, _ => "bad-request"
+  | _ => "bad-request"
+
+def step (st : Unit) (line : String) : Unit × String := (st, answer (words line))
 
 def main : IO Unit := do
-  IO.eprintln "family readline: not built yet"
+  loop (← IO.getStdin) (← IO.getStdout) () step
 
 end NaijaVerif.Driver.ReadLineD
